@@ -362,12 +362,13 @@ Definition old_init (d : csvdecl) (input : bytes) : ost :=
   mkO (mkC (if d_replace_dq d then replace_dq input else input) 0) false false.
 
 (* ---- line patterns ---------------------------------------------------------------------------- *)
-(* The regular expressions the harness uses: `^` + literal, and a bare literal. *)
-Inductive pat := PPrefix (s : bytes) | PContains (s : bytes).
+(* The regular expressions the harness uses: `^` + literal, a bare literal, literal + `$`. *)
+Inductive pat := PPrefix (s : bytes) | PContains (s : bytes) | PSuffix (s : bytes).
 Definition pat_match (p : pat) (line : bytes) : bool :=
   match p with
   | PPrefix s => is_prefix s line
   | PContains s => contains_sub s line
+  | PSuffix s => is_prefix (rev s) (rev line)
   end.
 
 (* ---- csv2 (fileformat/flatfile/csv) ----------------------------------------------------------- *)
